@@ -152,7 +152,16 @@ func TestSim(t *testing.T) {
 			nrep := 0
 			nviol++
 			if os.Getenv("SIM_NOMIN") != "1" && nviol <= 3 { // minimise the first few violations of a worker only
-				min, nrep = Minimise(t, s, rep.Violation.Class, pd.chk, 300)
+				func() {
+					// a violation is never lost to trouble in the minimiser: fall back to the original scenario
+					defer func() {
+						if r := recover(); r != nil {
+							fmt.Fprintf(os.Stderr, "minimiser panic on seed %d: %v\n", seed, r)
+							min, nrep = s, 0
+						}
+					}()
+					min, nrep = Minimise(t, s, rep.Violation.Class, pd.chk, 300)
+				}()
 			}
 			mrep := runOne(t, prop, min, true)
 			if mrep.Violation == nil || mrep.Violation.Class != rep.Violation.Class {
